@@ -295,6 +295,11 @@ func (r *SparseInt64Vector) VDIVS(a *SparseInt64Vector, b Int64) *SparseInt64Vec
   if r.Dim() != a.Dim() {
     panic("vector dimensions do not match")
   }
+  if b.GetFloat64() == 0.0 {
+    // division by zero also affects the elements that are not stored
+    r.VdivS(a, b)
+    return r
+  }
   for it := r.JOINT_ITERATOR_(a); it.Ok(); it.Next() {
     s_r := it.s1
     s_a := it.s2
